@@ -94,7 +94,7 @@ def run(ctx):
     for fn, res in ((h, hr), (zr, zrr)):
         for b, i, st in A.aggregates(fn, Z + "ZoneResult"):
             results.append((fn, res, b, i, st, res.rvalue(st["rv"], (b, i))))
-    ctx.floor("C02.1", "ZoneResult constructions", len(results), 8)
+    ctx.floor("C02.1", "ZoneResult constructions", len(results), 4)
     for fn, res, b, i, st, e in results:
         var = e[2]
         d = dict(e[3])
@@ -235,7 +235,7 @@ def run(ctx):
         okw, _ = zc.guarded(b, child_none)
         ctx.check(okw, "C02.4", "descent:wildcard-only-without-child", "wildcards consulted only if no child matched", "wildcards can shadow an existing child", zr.loc(b))
     ne = [(b, i) for fn, _, b, i, _, e in results if fn is zr and e[2] == "NameError"]
-    ctx.floor("C02.4", "NameError constructions", len(ne), 2)
+    ctx.floor("C02.4", "NameError constructions", len(ne), 1)
     wild_none = lambda fc: fc[0] == "is" and fc[1] == "None" and A.path_str(fc[2]) == "param1.wildcards"
     for n, (b, i) in enumerate(ne):
         ok1, _ = zc.guarded(b, child_none)
